@@ -245,6 +245,9 @@ def r5(ctx):
     ctx.sub(c04.r5, only=("mrfs",))      # the MRFs the criterion is computed from are the MRFs the result reports (nothing is filtered in between)
     ctx.sub(c14.r2, only=("producer:", "consumer:", "unordered:"))   # MRF k is the optimiser's result for cluster k's covariance (ordered gather)
     ctx.sub(c20.r2, only=("get:",))   # a failed task is never papered over by keeping the previous MRF
+    from . import c02, c12
+    ctx.sub(c12.r4, only=("task:empirical_covariance", "task:callee"))   # "S_k the covariance cluster k was fitted to": the task is given the stored S_k itself
+    ctx.sub(c02.r11, only=("entry:covariance",))                         # ... and the entry point hands it to the solver as it is
 
 
 @rule("C16", "R6", "OWN", "the metric only reads the model it is given", evidence=True)
